@@ -767,11 +767,13 @@ class unyt_array(np.ndarray):
                 # actually fill in the new float values now that our
                 # dtype is correct
                 np.copyto(values, float_values)
-            self.units = new_units
             values *= conv_factor
 
             if offset:
                 np.subtract(values, offset, values)
+            # relabel last: a buffer that cannot be written (a read-only
+            # view) must not end up with old numbers under the new unit
+            self.units = new_units
         else:
             self.convert_to_equivalent(units, equivalence, **kwargs)
 
